@@ -112,3 +112,97 @@ func TestExhaustiveMany(t *testing.T) {
 }
 
 func TestRegressMany(t *testing.T) { run.Regress(t, manySpec) }
+
+// SizeCase: a staircase ring of N coordinates (the closing one included): M unit steps
+// up and to the right from the origin, then left along y = M and down the y axis; for
+// an odd N one extra vertex in the middle of the last edge. Every edge is parallel to
+// an axis, every term of the area and length sums is a small whole number or a half,
+// so the exact values are reached exactly.
+type SizeCase struct {
+	Kind   string `json:"kind"` // LinearRing | Polygon | MultiPolygon | LineString
+	Layout int    `json:"layout"`
+	N      int    `json:"n"`
+}
+
+func propSize(c SizeCase) error {
+	l := geom.Layout(c.Layout)
+	s := l.Stride()
+	m := (c.N - 3) / 2 // 2m+1 stair vertices, (0,m), [(0, m/2)], closing
+	var pts [][2]float64
+	pts = append(pts, [2]float64{0, 0})
+	for j := 0; j < m; j++ {
+		pts = append(pts, [2]float64{float64(j + 1), float64(j)}, [2]float64{float64(j + 1), float64(j + 1)})
+	}
+	pts = append(pts, [2]float64{0, float64(m)})
+	if len(pts)+1 < c.N {
+		pts = append(pts, [2]float64{0, float64(m) / 2})
+	}
+	pts = append(pts, pts[0])
+	if len(pts) != c.N {
+		return fmt.Errorf("harness: built %d coordinates for N=%d", len(pts), c.N)
+	}
+	flat := make([]float64, 0, len(pts)*s)
+	for i, p := range pts {
+		flat = append(flat, p[0], p[1])
+		for d := 2; d < s; d++ {
+			flat = append(flat, float64(i*3+d)*1e5)
+		}
+	}
+	// counter-clockwise? the stairs run below the diagonal, back along the top and the
+	// left: area = m*m - (m*m-m)/2 ... computed exactly instead
+	a2 := 0.0
+	for i := 0; i+1 < len(pts); i++ {
+		a2 += pts[i][0]*pts[i+1][1] - pts[i+1][0]*pts[i][1]
+	}
+	wantArea, wantLen := a2/2, float64(4*m)
+	var area, length float64
+	switch c.Kind {
+	case "LinearRing":
+		g := geom.NewLinearRingFlat(l, flat)
+		area, length = g.Area(), g.Length()
+	case "Polygon":
+		g := geom.NewPolygonFlat(l, flat, []int{len(flat)})
+		area, length = g.Area(), g.Length()
+	case "MultiPolygon":
+		g := geom.NewMultiPolygonFlat(l, flat, [][]int{{len(flat)}})
+		area, length = g.Area(), g.Length()
+	default:
+		g := geom.NewLineStringFlat(l, flat)
+		area, length = wantArea, g.Length()
+		if g.Area() != 0 {
+			return fmt.Errorf("LineString of %d coordinates: Area() = %v", c.N, g.Area())
+		}
+	}
+	if area != wantArea || length != wantLen {
+		return fmt.Errorf("%s: staircase of %d coordinates: Area() = %v, Length() = %v, want exactly %v and %v", c.Kind, c.N, area, length, wantArea, wantLen)
+	}
+	return nil
+}
+
+var sizeSpec = run.Spec[SizeCase]{ID: "C09", Name: "size", Prop: propSize, Classify: func(c SizeCase) ([]string, bool) {
+	return []string{"size-sweep"}, true
+}}
+
+// TestExhaustiveSizes measures rings and lines of every number of coordinates from 5 to
+// 4 000 (thorough: 20 000).
+func TestExhaustiveSizes(t *testing.T) {
+	shard, shards := run.Shard()
+	hi := 4000
+	if run.Thorough() {
+		hi = 20000
+	}
+	kinds := []string{"LinearRing", "Polygon", "MultiPolygon", "LineString"}
+	layouts := []geom.Layout{geom.XY, geom.XYZ, geom.XYZM, geom.Layout(5), geom.XYM}
+	for n := 5; n <= hi; n++ {
+		if n%shards != shard {
+			continue
+		}
+		c := SizeCase{Kind: kinds[n%len(kinds)], Layout: int(layouts[(n/len(kinds))%len(layouts)]), N: n}
+		ev.Default.CaseHash(uint64(n)|1<<41, "size-sweep", true, func() any { return c })
+		if !run.One(t, sizeSpec, c) {
+			return
+		}
+	}
+}
+
+func TestRegressSizes(t *testing.T) { run.Regress(t, sizeSpec) }
